@@ -111,6 +111,7 @@ func advances(cf cfg) []int64 {
 //	X (cross):    everything, 17 operations.
 //	T (throttle): logins from both addresses, the clock steps around the
 //	              1-minute window and the block period; 8 operations.
+//	T1 (throttle, one address): as T with address 0 only; 6 operations.
 //	S (sessions): one login, request/logout with both cookies, the clock steps
 //	              around the day boundary, the TTL and a day, restart; 11 operations.
 func alphabet(pass string, cf cfg) (ops []op) {
@@ -129,6 +130,9 @@ func alphabet(pass string, cf cfg) (ops []op) {
 	case "T":
 		two("bad")
 		two("good")
+		adv(59, 61, cf.Block-1, cf.Block+1)
+	case "T1":
+		ops = append(ops, op{K: "bad", A: 0, C: c}, op{K: "good", A: 0, C: c})
 		adv(59, 61, cf.Block-1, cf.Block+1)
 	case "S":
 		ops = append(ops, op{K: "good", A: 0, C: c})
@@ -172,6 +176,8 @@ func (u unit) weight() float64 {
 	switch u.Pass {
 	case "T":
 		g, n, ops = 3.6, 16, 8
+	case "T1":
+		g, n, ops = 3.0, 16, 6
 	case "S":
 		g, n, ops = 3.8, 9.2, 11
 	}
@@ -224,6 +230,7 @@ func plan(quick bool, depth, split map[string]int) (us []unit) {
 	for _, m := range []int{1, 2, 3} {
 		for _, b := range []int64{b2, b15} {
 			add("T", cfg{m, b, t1h})
+			add("T1", cfg{m, b, t1h})
 		}
 	}
 	// Sessions do not read the throttling parameters: every TTL.
@@ -238,9 +245,9 @@ func plan(quick bool, depth, split map[string]int) (us []unit) {
 
 func tierParams(quick bool) (depth, split map[string]int) {
 	if quick {
-		return map[string]int{"T": 5, "S": 6, "X": 4}, map[string]int{"T": 3, "S": 6, "X": 2}
+		return map[string]int{"T": 5, "T1": 7, "S": 6, "X": 4}, map[string]int{"T": 3, "T1": 2, "S": 6, "X": 2}
 	}
-	return map[string]int{"T": 7, "S": 8, "X": 5}, map[string]int{"T": 4, "S": 8, "X": 2}
+	return map[string]int{"T": 7, "T1": 9, "S": 8, "X": 5}, map[string]int{"T": 4, "T1": 2, "S": 8, "X": 2}
 }
 
 // ---- reference model -----------------------------------------------------------
